@@ -50,6 +50,11 @@ check("C27", "exhaustive enumeration of the bundled declarations against the ins
       "Non-Linux platforms are represented by typeshed only; nested attributes (methods of declared classes) are outside the statement ('top-level declaration') and not checked.",
       "DESIGN.md §3 C27")
 
+check("C04", "differential property test: compile-time value (singleton type) vs compiled program vs CPython on generated constant expressions",
+      "Constant expression trees over Nat/Int/Float/Bool literals (negatives, zero divisors, values around 2**31..2**64, float/int mixes) are bound to a constant; the compiler runs in crash-isolated workers (panic/abort = violation); when the checker assigns the constant a singleton type its value must equal both what the compiled program prints and what CPython 3.11 computes for the same expression (floats bit-exact); a compile-time value for an expression that raises at run time is a violation.",
+      "`**` only with integer bases and exponents 0-5 (a transcendental float pow has no exact reference); no compile-time value or an ordinary diagnostic counts as 'left to run time / reported'.",
+      "DESIGN.md §3 C04")
+
 NOT_APPLICABLE = {}
 
 def main():
